@@ -1,6 +1,6 @@
 (* Proofs/SignedFull.v — randmio_*_signed: the diagonal clause (empty in => empty out; self-connections
-   are kept, which refutes "the diagonal is empty" for every input that has one) and the calls that do
-   not return (fewer than four nodes). *)
+   are kept, which refutes "the diagonal is empty" for every input that has one) and networks with fewer
+   than four nodes (returned unchanged). *)
 From Coq Require Import ZArith List Arith Lia Bool.
 From BCT Require Import Base.Mat Base.ListX Model.Signed Proofs.Signed.
 Import ListNotations.
@@ -62,29 +62,23 @@ Proof.
   vm_compute. discriminate.
 Qed.
 
-(* ---------- calls that do not return ---------- *)
-Lemma attempt_small und n fuel R s : (0 < n)%nat -> (n < 4)%nat -> attempt und n (S fuel) R s = Exhausted.
+(* ---------- fewer than four nodes: `if n < 4: return R, 0` ---------- *)
+(* the call returns the input unchanged, with no swap and no draw consumed, for every itr and stream *)
+Theorem small_n_returns_input und n R itr s : (n < 4)%nat ->
+  randmio_signed_ret und n R itr s = Some (R, s, []).
 Proof.
-  intros Hn H4. cbn [attempt]. destruct (pick4 n s) as [[q s']|] eqn:Ep; [|reflexivity].
-  pose proof (pick4_needs_4 n s q s' Hn Ep). lia.
-Qed.
-
-(* fewer than four nodes and at least one iteration: the retry recursion of pick_four_unique_nodes_quickly never
-   ends (RecursionError), whatever the stream *)
-Theorem small_n_never_returns und n R itr s : (0 < n)%nat -> (n < 4)%nat -> (0 < n_iter und n itr)%nat ->
-  randmio_signed_ret und n R itr s = None.
-Proof.
-  intros Hn H4 Hk. unfold randmio_signed_ret.
-  destruct (n_iter und n itr) as [|k]; [lia|]. cbn [runs_out]. rewrite attempt_small by assumption. reflexivity.
+  intros H4. unfold randmio_signed_ret, randmio_runs_out, randmio_signed.
+  destruct (Nat.ltb_spec n 4) as [_|H]; [reflexivity|lia].
 Qed.
 
 (* whenever the call returns, its result is the run the invariant theorems speak about *)
 Lemma randmio_signed_ret_Some und n R itr s x : randmio_signed_ret und n R itr s = Some x ->
   randmio_signed und n R itr s = x.
-Proof. unfold randmio_signed_ret. destruct (runs_out _ _ _ _ _); [discriminate|]. intros H. injection H. auto. Qed.
+Proof. unfold randmio_signed_ret. destruct (randmio_runs_out _ _ _ _ _); [discriminate|]. intros H. injection H. auto. Qed.
 
 (* no iteration requested: the input comes back, for every n *)
 Lemma randmio_signed_ret_zero und n R s : randmio_signed_ret und n R 0 s = Some (R, s, []).
 Proof.
-  unfold randmio_signed_ret, randmio_signed, n_iter. destruct und; cbn [Nat.mul]; reflexivity.
+  unfold randmio_signed_ret, randmio_runs_out, randmio_signed, n_iter.
+  destruct (n <? 4)%nat; [reflexivity|]. destruct und; cbn [Nat.mul negb andb]; reflexivity.
 Qed.
